@@ -82,6 +82,15 @@ func c19(c *orch.Ctx) (*report.Result, error) {
 			prof := synth.Profiles["fullspec"]
 			prof.MaxControllers = 2
 			p := synth.Gen(r, prof, fmt.Sprintf("p%04d", i), lab.ModPath)
+			if i%3 == 0 && p.Pkg("models") != nil {
+				// a controller in a file the globs do not match, inside a package that is only loaded because the
+				// controllers import it: it must not show up on any pass
+				if p.ExtraFiles == nil {
+					p.ExtraFiles = map[string]string{}
+				}
+				p.ExtraFiles["models/zz_decoy.go"] = decoyController("models", "DecoyInModels")
+				p.SetFeature("unglobbed-controller-in-imported-package")
+			}
 			var pt *Perturbation
 			if i%5 == 4 {
 				// a project that fails validation: diagnostics must be stable too
